@@ -7,6 +7,7 @@ import StepModel.P21.ReaderLemmas21
 import StepModel.P21.ReaderLemmas22
 import StepModel.P21.ReaderLemmas23
 import StepModel.P21.ReaderLemmas25
+import StepModel.P21.ReaderLemmas27
 import StepModel.Generated.P21RWGen
 /-! # C03 — the reader never reports a violating file as clean: property theorems
 
@@ -2100,6 +2101,183 @@ theorem C03_unknown_part_keyword_record {F} (ops : FloatOps F) (lex : LexCfg) (c
   · show (((cxFold cfg _ sv .null .null cs).1.greater .inputError).greater .warning).toInt < Sev.usermsg.toInt
     exact Int.lt_of_le_of_lt (Int.le_trans (greater_le_left _ _) (greater_le_right _ _)) (by decide)
 
+/-! ### an unterminated record: `#id = NAME ( … )` with its `;` missing, the next record behind it -/
+
+/-- tie: the source reports a record whose `;` is missing (fix C03-2) -/
+theorem C03_source_missing_semicolon_reported : Generated.rwCfg.missingSemicolonReported = true := by decide
+
+/-- the record's text without its `;` -/
+def bodyU {F} (r : Rec F) : List Byte :=
+  r.ds ++ (r.s1 ++ 61 :: (r.s2 ++ r.n0 :: (r.ns ++ (r.s3 ++ 40 :: (renderParams r.ps ++ r.s4)))))
+
+theorem bodyU_textU {F} (r : Rec F) (k : List Byte) : bodyU r ++ 35 :: k = r.textU k := by
+  simp [bodyU, Rec.textU, Rec.u1, Rec.u2, Rec.u3, Rec.u4, List.append_assoc]
+
+/-- the unterminated record as pass 2 sees it: read with its parameters' severity and WARNING on top -/
+def utermA {F} (d : Dict) (rA : Rec F) (qs : List (Param F × Sev)) : Item F :=
+  { body := bodyU rA, g := [], id := rA.id, mkI := mkInst d (rA, []),
+    out := { id := rA.id, parts := [{ name := rA.name, vals := rA.ps.map (·.v) }],
+             state := stateOf ((accum .null (qs.map (·.2))).greater .warning) },
+    sev := (accum .null (qs.map (·.2))).greater .warning }
+
+/-- the record behind it as pass 2 sees it: skipped -/
+def utermB {F} (rB : Rec F) (gB : List Byte) : Item F :=
+  { body := rB.text [], g := gB, id := rB.id, mkI := { id := rB.id, parts := [] }, out := { id := rB.id, parts := [] }, sev := .null }
+
+/-- both together as pass 1 sees them: one record -/
+def utermP {F} (d : Dict) (rA rB : Rec F) (gB : List Byte) (qs : List (Param F × Sev)) : Item F :=
+  { utermA d rA qs with body := rA.textU (rB.text []), g := gB }
+
+theorem digit_plain {c : Byte} (h : isDigit c = true) : plainc c = true := by
+  simp [isDigit] at h
+  simp [plainc]
+  refine ⟨⟨⟨?_, ?_⟩, ?_⟩, ?_⟩ <;> (intro hc; subst hc; revert h; decide)
+
+/-- **an unterminated record, up to the file verdict** (`_partial`; source with the report of C03-2): in a data section of
+    records given by their record-level facts (`pre`, `suf`: any shapes of this file), a record
+    `#idA = NAME ( p₁ , … , pₙ )` whose `;` is missing - its parameters read where they stand with known severities that
+    do not trigger the resynchronisation - stands directly in front of a record `#idB = …;`.  Pass 1 takes both for one
+    record (`SkipInstance` runs on to the `;` of the second): the first is created, the second is not - and is not
+    counted either.  Pass 2 reads the first record's parameters to their values, finds the `#` where the `;` must stand and
+    reports WARNING on top of what the parameters reported; it then comes to the second record, finds no instance for it,
+    skips it and counts it invalid.  Every other record is read to exactly the outcome it has on its own, the severities
+    are reported in file order, and p21read exits with 1.  (The record behind the unterminated one is lost: the
+    confinement clause of the statement does not hold for it - the check's oracle expects exactly this loss.) -/
+theorem C03_unterminated_record_confined_partial {F} (ops : FloatOps F) (lex : LexCfg) (cfg : RWCfg) (d : Dict) (strict : Bool)
+    (hskip : cfg.skipInstanceSkipsComments = true) (hmsr : cfg.missingSemicolonReported = true)
+    (pre suf : List (Item F × Bool)) (rA rB : Rec F) (gB : List Byte) (qs : List (Param F × Sev))
+    (g0 sp gE after : List Byte) (hg0 : Seps g0) (hsp : sp.all isSpace = true) (hgE : Seps gE)
+    (hnd : ((pre ++ (utermA d rA qs, true) :: (utermB rB gB, false) :: suf).map (·.1.id)).Nodup)
+    (hlexA : rA.Lex) (hscanA : ∀ q ∈ rA.ps, ParamScan q) (eA : EntityD) (hentA : d.entity? rA.name = some eA)
+    (habsA : eA.abstract = false) (hqs : rA.ps = qs.map (·.1)) (hattrsA : eA.attrs = rA.ps.map (·.a))
+    (hparA : ∀ q ∈ qs, ParamRd { ops := ops, lex := lex, cfg := cfg, dict := d,
+                                 lookup := Mgr.lookup d ({ insts := (keptI (pre ++ (utermA d rA qs, true) :: suf)).map (·.mkI) } : Mgr F) } strict q.1 q.2)
+    (hnoA : (cfg.errorResyncsFromStart && decide ((accum .null (qs.map (·.2))).toInt ≤ Sev.warning.toInt)) = false)
+    (hlexB : rB.Lex) (hscanB : ∀ q ∈ rB.ps, ParamScan q) (hgB : Seps gB)
+    (h1 : ∀ z ∈ pre ++ suf, if z.2 then Item1OK cfg d z.1 else ItemSkip1 cfg d z.1)
+    (h2 : ∀ z ∈ pre ++ suf, if z.2 then Item2OKF ops lex cfg d strict
+            (Mgr.lookup d ({ insts := (keptI (pre ++ (utermA d rA qs, true) :: suf)).map (·.mkI) } : Mgr F)) z.1
+          else ItemSkip2 ops lex cfg d strict z.1) :
+    ∃ res, readDataSection ops lex cfg d strict false
+        (g0 ++ renderItems ((pre ++ (utermA d rA qs, true) :: (utermB rB gB, false) :: suf).map (·.1))
+          (endsec sp (gE ++ (endIso ++ 59 :: after)))) = .ok res ∧
+      res.mgr.insts = (keptI (pre ++ (utermA d rA qs, true) :: suf)).map (·.out) ∧
+      res.reported = ((keptI (pre ++ (utermA d rA qs, true) :: suf)).map (·.sev)).reverse ∧
+      res.created = (keptI (pre ++ (utermA d rA qs, true) :: suf)).length ∧
+      res.notCreated = nskipI (pre ++ suf) ∧
+      res.valid = (keptI (pre ++ (utermA d rA qs, true) :: suf)).length ∧
+      res.invalid = nskipI (pre ++ suf) + 1 ∧ exitStatus res.sev = 1 := by
+  have hne : qs ≠ [] := by
+    intro h; rw [h] at hqs; exact hlexA.pne (by simpa using hqs)
+  obtain ⟨bodyB, hPB, eB⟩ := Rec.passes_t1 rB hlexB hscanB []
+  have eB' : ∀ R, rB.text [] ++ R = rB.ds ++ (bodyB ++ 59 :: R) := by
+    intro R
+    have : rB.text [] = rB.ds ++ (bodyB ++ [59]) := by unfold Rec.text; rw [eB]
+    rw [this]; simp
+  -- the two views
+  let zs1 : List (Item F × Bool) := pre ++ (utermP d rA rB gB qs, true) :: suf
+  let pre2 : List (Item F × Bool) := pre ++ [(utermA d rA qs, true)]
+  let suf2 : List (Item F × Bool) := (utermB rB gB, false) :: suf
+  have h22 : pre2 ++ suf2 = pre ++ (utermA d rA qs, true) :: (utermB rB gB, false) :: suf := by simp [pre2, suf2]
+  have hmkP : (utermP d rA rB gB qs).mkI = (utermA d rA qs).mkI := rfl
+  have hkmk : (keptI zs1).map (·.mkI) = (keptI (pre ++ (utermA d rA qs, true) :: suf)).map (·.mkI) := by
+    simp [zs1, keptI_append, keptI_cons_true, hmkP]
+  have hk2 : keptI (pre2 ++ suf2) = keptI (pre ++ (utermA d rA qs, true) :: suf) := by
+    simp [pre2, suf2, keptI_append, keptI_cons_true, keptI_cons_false, keptI]
+  have hn1 : nskipI zs1 = nskipI (pre ++ suf) := by simp [zs1, nskipI_append, nskipI_cons_true]
+  have hn2 : nskipI (pre2 ++ suf2) = nskipI (pre ++ suf) + 1 := by
+    simp [pre2, suf2, nskipI_append, nskipI_cons_true, nskipI_cons_false, nskipI]; omega
+  have htext : ∀ E, renderItems (zs1.map (·.1)) E = renderItems ((pre2 ++ suf2).map (·.1)) E := by
+    intro E
+    simp only [zs1, pre2, suf2, List.map_append, List.map_cons, List.map_nil, renderItems_append, renderItems, utermP, utermA, utermB,
+      List.nil_append, List.append_assoc]
+    rw [← bodyU_textU]
+    simp [List.append_assoc]
+  have hnd1 : (zs1.map (·.1.id)).Nodup := by
+    have hsub : List.Sublist (zs1.map (·.1.id)) ((pre ++ (utermA d rA qs, true) :: (utermB rB gB, false) :: suf).map (·.1.id)) := by
+      simp only [zs1, List.map_append, List.map_cons]
+      exact List.Sublist.append_left (List.Sublist.cons₂ _ (List.Sublist.cons _ (List.Sublist.refl _))) _
+    exact hnd.sublist hsub
+  obtain ⟨res, hr, hm, hsev, hc, hnc, hv, hinv, hrep⟩ :=
+    readDataSection_twoviews ops lex cfg d strict sp _ hsp (tailOK_endIso gE hgE after) zs1 pre2 suf2 g0 hg0 (by simp [suf2])
+      (htext _) (by rw [hkmk, hk2]) hnd1 (by rw [h22]; exact hnd)
+      (by
+        intro z hz
+        simp only [zs1, List.mem_append, List.mem_cons] at hz
+        rcases hz with hz | rfl | hz
+        · exact h1 z (by simp [hz])
+        · -- pass 1 takes both records for one
+          simp only [if_true]
+          refine ⟨hgB, rfl, ?_⟩
+          intro m hnone l c k hc h47 h92
+          let b : BRec := { ds := rA.ds, s1 := rA.s1, s2 := rA.s2, n0 := rA.n0, ns := rA.ns, s3 := rA.s3,
+                            body := renderParams rA.ps ++ (rA.s4 ++ 35 :: (rB.ds ++ bodyB)), s4 := [] }
+          have hbl : b.Lex := ⟨hlexA.dne, hlexA.ddig, hlexA.dhi, hlexA.h1, hlexA.h2, hlexA.h3, Seps.blanks [] (by simp), hlexA.hn0, hlexA.hns⟩
+          have hbp : Passes b.body :=
+            Passes.append (Passes.params rA.ps hlexA.pne hscanA) (Passes.append (Passes.seps hlexA.h4)
+              (Passes.append (a := [35]) (Passes.plain 35 (by decide))
+                (Passes.append (Passes.all_plain _ (all_imp (fun c => digit_plain) _ hlexB.ddig)) hPB)))
+          obtain ⟨l', h⟩ := createInstance_brec cfg hskip d m b hbl hbp hnone eA hentA habsA l gB hgB c k hc h47 h92
+          refine ⟨l', ?_⟩
+          have etxt : (utermP d rA rB gB qs).body ++ ((utermP d rA rB gB qs).g ++ c :: k) = b.text (gB ++ c :: k) := by
+            show rA.textU (rB.text []) ++ (gB ++ c :: k) = _
+            rw [← bodyU_textU, List.append_assoc, List.cons_append, eB']
+            simp [bodyU, b, BRec.text, BRec.t1, BRec.t2, BRec.t3, BRec.t4, List.append_assoc]
+          rw [etxt, h]
+          have hentA' : d.entity? (bytesToString (upperBytes (rA.n0 :: rA.ns))) = some eA := hentA
+          simp [utermP, utermA, mkInst, hentA', b, BRec.id, BRec.name, Rec.id, Rec.name]
+        · exact h1 z (by simp [hz]))
+      (by
+        intro z hz
+        rw [hkmk]
+        simp only [pre2, List.mem_append, List.mem_singleton] at hz
+        rcases hz with hz | rfl
+        · have := h2 z (by simp [hz])
+          cases hb : z.2 with
+          | true => simp only [hb, if_true] at this ⊢; exact this.toH
+          | false => simp only [hb, Bool.false_eq_true, if_false] at this ⊢; exact this
+        · simp only [if_true]
+          refine ⟨Seps.blanks [] (by simp), rfl, rfl, by simp [keyOf, utermA, mkInst], ?_⟩
+          intro st l k hfind hlk hs
+          have hs' : st.s = G l (rA.textU k) false := by
+            rw [← bodyU_textU]; simpa [utermA] using hs
+          have hrd : ∀ L, instSTEPread { ops := ops, lex := lex, cfg := cfg, dict := d, lookup := Mgr.lookup d st.mgr } strict
+              eA.attrs (G L (40 :: (renderParams rA.ps ++ rA.u4 k)) false) =
+                .ok ⟨accum .null (qs.map (·.2)), rA.ps.map (·.v), G ((40 :: renderParams rA.ps).reverse ++ L) (rA.u4 k) false, aaccum qs⟩ := by
+            intro L
+            obtain ⟨sk', hsk, h⟩ := instSTEPread_params_sev { ops := ops, lex := lex, cfg := cfg, dict := d, lookup := Mgr.lookup d st.mgr }
+              strict qs hne (by intro q hq; rw [hlk]; exact hparA q hq) L false (rA.u4 k)
+            have : sk' = false := by rcases hsk with h | h <;> exact h
+            subst this
+            rw [hattrsA, hqs]
+            simpa [List.map_map, Function.comp_def] using h
+          obtain ⟨l', h⟩ := readInstance_nosemi ops lex cfg d strict st rA hlexA hmsr l k false hs' (mkInst d (rA, [])) hfind rfl rfl
+            { name := rA.name, vals := match d.entity? rA.name with | some e => defaults e.attrs | none => [] } rfl eA hentA
+            _ _ _ hrd hnoA
+          refine ⟨l', ?_⟩
+          rw [h]
+          simp [utermA, mkInst])
+      (by
+        intro z hz
+        rw [hkmk]
+        simp only [suf2, List.mem_cons] at hz
+        rcases hz with rfl | hz
+        · simp only [Bool.false_eq_true, if_false]
+          refine ⟨hgB, ?_⟩
+          intro st l rest hnf hs
+          have hs' : st.s = G l (rB.text rest) false := by rw [← text_nil_append]; exact hs
+          exact readInstance_notfound ops lex cfg d strict hskip st rB hlexB hscanB l rest hs' hnf
+        · exact h2 z (by simp [hz]))
+  rw [htext] at hr
+  rw [h22] at hr
+  rw [hk2] at hm hv hrep hsev
+  rw [hn2] at hinv hsev
+  refine ⟨res, hr, hm, hrep, ?_, ?_, hv, hinv, ?_⟩
+  · rw [hc]; simp [zs1, keptI_append, keptI_cons_true]
+  · rw [hnc, hn1]
+  · rw [C03_exit_iff_worse_than_usermsg, hsev, if_pos (by omega)]
+    exact Int.lt_of_le_of_lt (greater_le_right _ _) (by decide)
+
 /-- **a violation inside a typed select value**: `KEYWORD blanks ( blanks value )` for a select attribute where the keyword
     names a non-entity member and the value between the parentheses is read with WARNING (`LeafRdS`, e.g.
     `LeafRdS.integer_junk`: `CNT_T('a')`): the attribute reader returns WARNING with the member chosen and the value unset,
@@ -2649,6 +2827,70 @@ theorem C03_unknown_part_keyword_witness :
         exact anyStep_item2 dblOps Generated.rwLexCfg Generated.rwCfg mxDict false (by decide) (by decide) (by decide) _ _ (hG _))
   refine ⟨res, hr, by rw [hrep]; decide, hc, by rw [hm]; decide, hex ?_⟩
   exact ⟨(cxUnknownItem Generated.rwCfg mxDict muCRec [10] [mxPartA] muSv), List.mem_cons_self .., (hU (fun _ => none)).2.2⟩
+
+/-- `#2=A(5);⏎#1=A(5)#3=A(5);⏎` - the second record without its `;`: `C03_unterminated_record_confined_partial` applies;
+    records 2 and 1 are created and read (WARNING for the unterminated one), record 3 is lost (skipped, invalid), exit 1 -/
+def utRA : Rec Nat := { ds := [49], s1 := [], s2 := [], n0 := 65, ns := [], s3 := [], ps := [mxP5], s4 := [] }
+def utRB : Rec Nat := { ds := [51], s1 := [], s2 := [], n0 := 65, ns := [], s3 := [], ps := [mxP5], s4 := [] }
+def utPre : List (Item Nat × Bool) := [((AnyStep.simple wGood).item mxDict, true)]
+
+theorem C03_unterminated_record_witness :
+    ∃ res, readDataSection dblOps Generated.rwLexCfg Generated.rwCfg mxDict false false
+        ([10] ++ renderItems ((utPre ++ (utermA mxDict utRA [(mxP5, Sev.null)], true) :: (utermB utRB [10], false) :: []).map (·.1))
+          (endsec [] ([10] ++ (endIso ++ 59 :: [10])))) = .ok res ∧
+      res.reported = [Sev.warning, Sev.null] ∧ res.created = 2 ∧ res.notCreated = 0 ∧ res.invalid = 1 ∧
+      res.mgr.insts.map (·.state) = [.complete, .incomplete] ∧ exitStatus res.sev = 1 := by
+  have sepsNil : Seps ([] : List Byte) := Seps.blanks [] (by decide)
+  have sepsNl : Seps ([10] : List Byte) := Seps.blanks [10] (by decide)
+  have hlexG : wGood.r.Lex := ⟨by decide, by decide, by decide, sepsNil, sepsNil, sepsNil, sepsNil, by decide, by decide, by decide⟩
+  have hscanG : ∀ q ∈ wGood.r.ps, ParamScan q := by
+    intro q hq
+    simp only [wGood, List.mem_singleton] at hq
+    subst hq
+    exact ⟨(Passes.plain 53 (by decide)).toS, sepsNil, sepsNil⟩
+  have hscan5 : ∀ q ∈ [mxP5], ParamScan q := by
+    intro q hq
+    simp only [List.mem_singleton] at hq
+    subst hq
+    exact ⟨(Passes.plain 53 (by decide)).toS, sepsNil, sepsNil⟩
+  have hentA : mxDict.entity? "A" = some { name := "A", attrs := [wAttrX], ancestors := ["A"] } := by decide
+  have hG : ∀ lk : Lookup, AnyStepOK { ops := dblOps, lex := Generated.rwLexCfg, cfg := Generated.rwCfg, dict := mxDict, lookup := lk }
+      false (.simple wGood) := by
+    intro lk
+    refine ⟨⟨hlexG, sepsNl, hscanG, _, hentA, rfl⟩, Or.inl ⟨hlexG, sepsNl, hscanG,
+      [(({ a := wAttrX, v := .one (.atom (.int (Grammar.denoteInteger [53]))), tok := [53], before := [], after := [] } : Param Nat), Sev.null)],
+      _, rfl, ?_, hentA, rfl, rfl, rfl⟩⟩
+    intro q hq
+    simp only [List.mem_singleton] at hq
+    subst hq
+    refine ⟨rfl, ⟨53, [], rfl, by decide, by decide, by decide⟩, sepsNil, fun l sk d rest hd => ⟨sk, Or.inl rfl, ?_⟩⟩
+    exact attr_integer _ false wAttrX rfl rfl (by show Generated.rwLexCfg.criSkipsComments = true; decide) [53] (by decide) (by decide) (by decide) l sk [] sepsNil d rest hd
+  obtain ⟨res, hr, hm, hrep, hc, hnc, _, hinv, hex⟩ := C03_unterminated_record_confined_partial dblOps Generated.rwLexCfg
+    Generated.rwCfg mxDict false (by decide) (by decide) utPre [] utRA utRB [10] [(mxP5, Sev.null)] [10] [] [10] [10]
+    sepsNl (by decide) sepsNl (by decide)
+    ⟨by decide, by decide, by decide, sepsNil, sepsNil, sepsNil, sepsNil, by decide, by decide, by decide⟩ hscan5
+    { name := "A", attrs := [wAttrX], ancestors := ["A"] } hentA rfl rfl rfl
+    (by
+      intro q hq
+      simp only [List.mem_singleton] at hq
+      subst hq
+      refine ⟨rfl, ⟨53, [], rfl, by decide, by decide, by decide⟩, sepsNil, fun l sk d rest hd => ⟨sk, Or.inl rfl, ?_⟩⟩
+      exact attr_integer _ false wAttrX rfl rfl (by decide) [53] (by decide) (by decide) (by decide) l sk [] sepsNil d rest hd)
+    (by decide)
+    ⟨by decide, by decide, by decide, sepsNil, sepsNil, sepsNil, sepsNil, by decide, by decide, by decide⟩ hscan5 sepsNl
+    (by
+      intro z hz
+      simp only [utPre, List.append_nil, List.mem_singleton] at hz
+      subst hz
+      simp only [if_true]
+      exact anyStep_item1 dblOps Generated.rwLexCfg Generated.rwCfg mxDict false (by decide) (fun _ => none) _ (hG _))
+    (by
+      intro z hz
+      simp only [utPre, List.append_nil, List.mem_singleton] at hz
+      subst hz
+      simp only [if_true]
+      exact anyStep_item2 dblOps Generated.rwLexCfg Generated.rwCfg mxDict false (by decide) (by decide) (by decide) _ _ (hG _))
+  refine ⟨res, hr, by rw [hrep]; decide, by rw [hc]; decide, by rw [hnc]; decide, by rw [hinv]; decide, by rw [hm]; decide, hex⟩
 
 /-! ### a stray `/` or `\` in front of a parameter is dropped without a word (finding
     `detect:stray-slash-or-backslash-between-parameters`; the model agrees with the code) -/
